@@ -18,13 +18,13 @@ import (
 
 func Spec_Parse(props *interface{}) *CriteriaSplitCondition {
 	parsedProps := CriteriaSplitCondition{Max: math.MaxInt64}
-	utils.DecodeToStruct(*props, &parsedProps)
-	parsedProps.validate()
+	utils.Spec_DecodeToStruct(*props, &parsedProps)
+	parsedProps.Spec_validate()
 	return &parsedProps
 }
 
 func (c *CriteriaSplitCondition) Spec_validate() {
-	if !utils.IsProbability(c.Ratio) {
+	if !utils.Spec_IsProbability(c.Ratio) {
 		panic(fmt.Errorf("'ratio' need to be in range [0,1], got %f", c.Ratio))
 	}
 	if c.Max < c.Min {
